@@ -22,7 +22,11 @@ func newLoader() *hLoader {
 	return &hLoader{sto: map[string]blobserver.Storage{}, handlers: map[string]any{}, types: map[string]string{}, myPrefix: "/verif/"}
 }
 
-func (l *hLoader) set(prefix string, s blobserver.Storage) { l.mu.Lock(); l.sto[prefix] = s; l.mu.Unlock() }
+func (l *hLoader) set(prefix string, s blobserver.Storage) {
+	l.mu.Lock()
+	l.sto[prefix] = s
+	l.mu.Unlock()
+}
 func (l *hLoader) setHandler(prefix, typ string, h any) {
 	l.mu.Lock()
 	l.handlers[prefix] = h
@@ -49,9 +53,13 @@ func (l *hLoader) AllHandlers() (map[string]string, map[string]any) {
 	}
 	return t, h
 }
-func (l *hLoader) MyPrefix() string                 { return l.myPrefix }
-func (l *hLoader) BaseURL() string                  { return "http://verif.invalid" }
-func (l *hLoader) GetHandlerType(p string) string   { l.mu.Lock(); defer l.mu.Unlock(); return l.types[p] }
+func (l *hLoader) MyPrefix() string { return l.myPrefix }
+func (l *hLoader) BaseURL() string  { return "http://verif.invalid" }
+func (l *hLoader) GetHandlerType(p string) string {
+	l.mu.Lock()
+	defer l.mu.Unlock()
+	return l.types[p]
+}
 func (l *hLoader) GetHandler(p string) (any, error) {
 	l.mu.Lock()
 	defer l.mu.Unlock()
